@@ -2,7 +2,7 @@
 
 L1  theories/C19/Props.v: the hand model of the ~26 room/user handlers (Model.v) answers every
     question of the independent per-question spec (Spec.v) identically, for all notification lists
-    (the operator question is refuted for the own operator grant: finding F24).
+    (full statement; finding F24 repaired, its witness is still replayed).
 L2  correspondence: notification sequences (<= 12, 3 rooms x 3 users incl. the logged-in user) are
     sent as real frames by the scripted server of a real SoulSeekClient (vlib.world.World); after
     every message the full content of RoomManager.rooms / UserManager users and the events emitted
